@@ -15,7 +15,7 @@ import (
 var intrinsicNames = map[string]bool{
 	"zzNondetInt64": true, "zzNondetInt": true, "zzNondetUint16": true, "zzNondetUint32": true, "zzNondetUint64": true,
 	"zzNondetByte": true, "zzNondetBool": true, "zzChoice": true, "zzPick": true,
-	"zzAssume": true, "zzAssert": true, "zzReach": true, "zzSettle": true, "zzExpectPanic": true,
+	"zzAssume": true, "zzAssert": true, "zzReach": true, "zzSettle": true, "zzYield": true, "zzExpectPanic": true,
 	"zzAnd": true, "zzOr": true, "zzImplies": true, "zzNot": true,
 	"zzIteInt": true, "zzIteInt64": true, "zzIteByte": true, "zzIteBool": true, "zzIteUint16": true, "zzIteStr": true,
 	"zzParam": true, "zzSymbolic": true, "zzDecStr": true, "zzWriteLocked": true, "zzLockDepth": true,
@@ -98,6 +98,20 @@ func (p *Path) intrinsic(g *G, fr *Frame, fn *ssa.Function, args []Value) (Value
 	case "zzReach":
 		p.reached[p.concStr(args[0], "reach tag")] = true
 		return nil, stNext
+	case "zzYield":
+		// a scheduling point inside a modelled blocking call: when the main goroutine
+		// reaches it the other goroutines run until they block; elsewhere it is a no-op
+		if g.id != 0 || len(p.gs) < 2 {
+			return nil, stNext
+		}
+		if g.settleDone {
+			g.settleDone = false
+			g.settleReq = false
+			return nil, stNext
+		}
+		g.settleReq = true
+		g.wait = "yield"
+		return nil, stBlock
 	case "zzSettle", "zzSettleMs":
 		if g.id != 0 {
 			p.internal("zzSettle outside the main goroutine")
